@@ -47,7 +47,7 @@ type c10Report struct {
 
 // hostile argument matrix: path-, URL- and command-like strings and other types
 func c10Args(canary string) []object.Object {
-	strs := []string{"/etc/passwd", canary, canary + ".new", "file:///etc/passwd", "file://" + canary, "127.0.0.1:1", "http://127.0.0.1:1/x", "|id", "; touch " + canary + ".cmd", "$(id)", "`id`",
+	strs := []string{"VERIF_A", "VERIF_B", "VERIF_C", "VERIF_D", "VERIF_B_FILE", "VERIF_A_FILE", "/etc/passwd", canary, canary + ".new", "file:///etc/passwd", "file://" + canary, "127.0.0.1:1", "http://127.0.0.1:1/x", "|id", "; touch " + canary + ".cmd", "$(id)", "`id`",
 		"../../etc/passwd", "/dev/null", "/proc/self/environ", "HOME", "PATH", "TZ", "%s%s%s%n", "%v", "", "a", "(", "[a-", "*", "\\\\host\\share", "-rf /", "> " + canary + ".redir", "/tmp"}
 	var out []object.Object
 	for _, s := range strs {
@@ -94,6 +94,18 @@ func c10Worker(args []string) {
 	rep.Functions = fns
 	argv := c10Args(canary)
 	corpus := loadCorpus() // read by the harness, before the judged window opens
+	// a hostile environment: variables (and "sibling" variables of unset names) whose
+	// values are paths, URLs and commands - reading the environment is allowed,
+	// acting on what it says is not
+	os.Setenv("VERIF_A", canary)
+	os.Setenv("VERIF_A_FILE", canary)
+	os.Setenv("VERIF_B_FILE", canary)
+	os.Setenv("VERIF_B_PATH", canary)
+	os.Setenv("VERIF_B_DIR", filepath.Dir(canary))
+	os.Setenv("VERIF_C_URL", "http://127.0.0.1:1/x")
+	os.Setenv("VERIF_C", "file://"+canary)
+	os.Setenv("VERIF_D_CMD", "touch "+canary+".cmd")
+	os.Setenv("VERIF_D", "|touch "+canary+".cmd2")
 
 	marker("BEGIN")
 	for _, fn := range fns {
